@@ -565,6 +565,13 @@ def algebra_search(ctx):
                     src += f"M{i} = {spec_src(f, n)}; h{i} = Hamiltonian(n, M{i}.copy())\n"
             # a short history of operations; cur / curM track the result
             cur, curM, cs = objs[0], mats[0], "h0"
+            if rng.random() < 0.5:
+                # every operand has already been looked at (dense matrix cached) before the
+                # arithmetic: the result must not depend on which caches are filled
+                for o in objs:
+                    o.matrix
+                src += "h0.matrix; h1.matrix; h2.matrix\n"
+                ctx.stat(f"alg_operands_primed:{kind}")
             if rng.random() < 0.5 and kind == "dense":
                 # prime the eigen caches so that scalar multiples inherit them (must not matter for .matrix)
                 try:
